@@ -722,7 +722,7 @@ pub fn gen_c15(rng: &mut Rng, _tier: Tier) -> Result<Value, serde_json::Error> {
     if long_list {
         // rarely thousands (batch / chunked processing); lists beyond 2^16 elements take the unchanged
         // holder minutes per selection (quadratic walk) and are out of this check's time budget
-        let n = if rng.chance(1, 12) { *rng.pick(&[4099usize, 4101, 5003, 8191]) } else { *rng.pick(&[33usize, 65, 70, 129, 200]) };
+        let n = if rng.chance(1, 4) { *rng.pick(&[4099usize, 4101, 5003, 8191]) } else { *rng.pick(&[33usize, 65, 70, 129, 200]) };
         if let Some(o) = claims.as_object_mut() {
             o.insert("records".into(), Value::Array((0..n).map(|i| if rng.chance(1, 8) { json!({"id": i}) } else { json!(i) }).collect()));
         }
